@@ -246,7 +246,7 @@ class Planner:
         if fn in ("mul", "div"):
             s = {"v": r.choice(SCALARS)}
             if r.random() < 0.3:
-                s.update({"as": "t0", "dtype": self.sw["t0_dtype"]})
+                s.update({"as": r.choice(["t0", "t0", "t0", "t1", "t11"]), "dtype": self.sw["t0_dtype"]})
             return [a], {"s": s, "form": r.choice(["ts", "ts", "st", "fn"])}
         if fn in ("softmax", "log_softmax"):
             return [a], {"dim": rd()}
@@ -266,7 +266,7 @@ class Planner:
                 return None
             return ([b, a] if r.random() < 0.5 else [a, b]), {}
         if fn == "to_dtype":
-            return [a], {"dtype": r.choice(DTYPES)}
+            return [a], {"dtype": r.choice(DTYPES), "copy": r.random() < 0.3}
         if fn == "to_device":
             return [a], {"copy": r.random() < 0.6}
         if fn == "is_same_size":
